@@ -52,6 +52,8 @@ def sym_list(case, kinds):
     for k in kinds:
         if k in cnt:
             out += [["s", k, i] for i in range(cnt[k])]
+        elif k == "t0" and "fixed" in case.get("t0", {"fixed": 0}) and Fr(case.get("t0", {"fixed": 0})["fixed"]) == 0:
+            continue   # a numeric zero would let CasADi fold products to constants
         else:
             out.append(["s", k])
     return out
@@ -150,8 +152,8 @@ def gen_base(rng, opts):
     pv["p"] = [jq(dyadic(rng, -2, 2, 2)) for _ in range(npg)]
     if "param" in case["T"]:
         pv["p"][case["T"]["param"]] = jq(rng.choice([1, 2, Fraction(3, 2), Fraction(5, 2)]))
-    pv["pc"] = [[jq(dyadic(rng, -2, 2, 2)) for _ in range(npc)] for _ in range(N)] if npc else []
-    pv["pp"] = [[jq(dyadic(rng, -2, 2, 2)) for _ in range(npp)] for _ in range(N + 1)] if npp else []
+    pv["pc"] = [[jq(dyadic(rng, -2, 2, 2)) for _ in range(npc)] for _ in range(N)]
+    pv["pp"] = [[jq(dyadic(rng, -2, 2, 2)) for _ in range(npp)] for _ in range(N + 1)]
     case["param_values"] = pv
     case["constraints"] = []
     case["objective"] = []
@@ -172,14 +174,14 @@ def gen_point(rng, case):
     pt = {}
     ncol = 1 if m["kind"] == "SS" else N + 1
     pt["X"] = [[d() for _ in range(nx)] for _ in range(ncol)]
-    pt["U"] = [[d() for _ in range(nu)] for _ in range(N)] if nu else []
+    pt["U"] = [[d() for _ in range(nu)] for _ in range(N)]
     pt["V"] = [d() for _ in range(nvg)]
-    pt["VC"] = [[d() for _ in range(nvc)] for _ in range(N)] if nvc else []
-    pt["VP"] = [[d() for _ in range(nvp)] for _ in range(N + 1)] if nvp else []
+    pt["VC"] = [[d() for _ in range(nvc)] for _ in range(N)]
+    pt["VP"] = [[d() for _ in range(nvp)] for _ in range(N + 1)]
     pv = case.get("param_values", {})
     pt["P"] = pv.get("p", [])
-    pt["PC"] = pv.get("pc", [])
-    pt["PP"] = pv.get("pp", [])
+    pt["PC"] = pv.get("pc") or [[] for _ in range(N)]
+    pt["PP"] = pv.get("pp") or [[] for _ in range(N + 1)]
     Th, t0h = case.get("T", {"fixed": 1}), case.get("t0", {"fixed": 0})
     if "fixed" in Th:
         pt["T"] = Th["fixed"]
@@ -212,3 +214,136 @@ def gen_point(rng, case):
         else:
             pt["Tloc"] = [jq(L) for L in (lens if g.get("class") == "Free" else lens[1:])]
     return pt
+
+
+# ------------------------------------------------------------------ constraints / objective
+SIGNAL_KINDS = ["x", "u", "pc", "pp", "vc", "vp", "t"]
+
+
+def signal_expr(rng, case, kinds, maxdeg=2, allow_dt=False):
+    """a polynomial that certainly depends on time (contains a state/control/per-interval symbol)"""
+    ks = list(kinds)
+    if allow_dt and rng.random() < 0.2:
+        ks += ["DT", "DTc"]
+    syms = sym_list(case, ks)
+    sig = sym_list(case, [k for k in ("x", "u") if k in kinds]) or sym_list(case, ["t"])
+    core = rng.choice(sig)
+    e = ["+", ["*", C(dyadic_nz(rng, -2, 2, 1)), core], rand_poly(rng, syms, maxdeg, nterms=rng.randint(1, 2))]
+    return e
+
+
+def add_offsets(rng, e, p=0.5, offs=(-2, -1, 1, 2, 3)):
+    """wrap some state/control leaves of e into next/prev/offset placeholders"""
+    if not isinstance(e, list):
+        return e
+    if e[0] == "s" and e[1] in ("x", "u") and rng.random() < p:
+        n = rng.choice(offs)
+        r = ["off", n, e]
+        if n == 1 and rng.random() < 0.5:
+            r.append("next")
+        if n == -1 and rng.random() < 0.5:
+            r.append("prev")
+        return r
+    if e[0] in ("+", "-", "*", "/"):
+        return [e[0], add_offsets(rng, e[1], p, offs), add_offsets(rng, e[2], p, offs)]
+    if e[0] == "neg":
+        return ["neg", add_offsets(rng, e[1], p, offs)]
+    if e[0] == "pow":
+        return ["pow", add_offsets(rng, e[1], p, offs), e[2]]
+    return e
+
+
+def gen_path_constraint(rng, case, opts):
+    m = case["method"]
+    grids = opts.get("cgrids", ["control", "control", "integrator"])
+    grid = rng.choice(grids)
+    kinds = ["x", "u", "p", "pc", "pp", "v", "vc", "vp", "t", "T", "t0"]
+    c = {"grid": grid, "include_first": rng.random() < 0.7, "include_last": rng.random() < 0.7}
+    if rng.random() < opts.get("p_cscale", 0.25):
+        c["scale"] = jq(rng.choice([2, 4, Fraction(1, 2), 8]))
+    form = rng.choice(["le", "le", "eq", "between", "ge", "vec"])
+    mk = lambda: signal_expr(rng, case, kinds, 2, allow_dt=(grid == "control"))
+    if grid == "control" and rng.random() < opts.get("p_offset", 0.3):
+        mk0 = mk
+        # the leading term keeps a plain signal symbol: a constraint whose only time dependence
+        # is through next/prev/offset is classified as a point constraint by rockit and fails loudly
+        def mk():
+            e = mk0()
+            return [e[0], e[1], add_offsets(rng, e[2])]
+    bound = lambda: rand_poly(rng, sym_list(case, ["p"]), 1, nterms=1) if rng.random() < 0.3 else C(dyadic(rng, -2, 2, 1))
+    if form == "between":
+        lo, hi = C(dyadic(rng, -3, 0, 1)), C(dyadic(rng, 1, 3, 1))
+        e = mk()
+        c["form"] = "between"
+        c["rels"] = [{"rel": "le", "lhs": lo, "rhs": e}, {"rel": "le", "lhs": e, "rhs": hi}]
+    elif form == "ge":
+        c["form"] = "ge"
+        c["rels"] = [{"rel": "le", "lhs": bound(), "rhs": mk()}]
+    elif form == "vec":
+        n = rng.randint(2, 3)
+        rel = rng.choice(["le", "eq"])
+        c["rels"] = [{"rel": rel, "lhs": mk(), "rhs": bound()} for _ in range(n)]
+    else:
+        c["rels"] = [{"rel": form, "lhs": mk(), "rhs": bound() if rng.random() < 0.7 else mk()}]
+    return c
+
+
+def pterm(rng, case, opts, allow_int=True):
+    """a non-signal scalar term"""
+    kinds = ["x", "u", "p", "pc", "pp", "v", "vc", "vp", "t", "T", "t0"]
+    choices = ["at0", "atf", "atf"]
+    if allow_int:
+        choices += ["int", "sum", "sump"] + (["intc"] if opts.get("intc", False) else [])
+    k = rng.choice(choices)
+    if k == "int":
+        e = rand_poly(rng, sym_list(case, [k for k in kinds if k not in ("T", "t0")]), 2)
+        case.setdefault("quad", []).append(e)
+        t = ["int", len(case["quad"]) - 1]
+    elif k in ("sum", "sump", "intc"):
+        t = [k, signal_expr(rng, case, kinds, 2)]
+    else:
+        e = signal_expr(rng, case, ["x", "p", "pp", "v", "vp", "t", "T", "t0"] + (["u", "pc", "vc"] if rng.random() < 0.5 else []), 2)
+        t = [k, e]
+    r = rng.random()
+    gl = [["g", s[1], s[2]] for s in sym_list(case, ["p", "v"])] + [["g", s[1]] for s in sym_list(case, ["T", "t0"])]
+    if r < 0.25:
+        t = ["*", t, rng.choice(gl)]
+    elif r < 0.35:
+        t = ["+", t, ["*", C(dyadic_nz(rng)), rng.choice(gl)]]
+    elif r < 0.4:
+        t = ["pow", t, 2]
+    return t
+
+
+def gen_point_constraint(rng, case, opts):
+    c = {"grid": "point"}
+    if rng.random() < opts.get("p_cscale", 0.25):
+        c["scale"] = jq(rng.choice([2, 4, Fraction(1, 2)]))
+    rel = rng.choice(["eq", "le"])
+    lhs = pterm(rng, case, opts, allow_int=rng.random() < 0.2)
+    rhs = C(dyadic(rng, -2, 2, 1)) if rng.random() < 0.6 else pterm(rng, case, opts, allow_int=False)
+    c["rels"] = [{"rel": rel, "lhs": lhs, "rhs": rhs}]
+    return c
+
+
+def add_constraints(rng, case, opts):
+    n = rng.randint(opts.get("nc_min", 1), opts.get("nc_max", 4))
+    for _ in range(n):
+        if rng.random() < opts.get("p_point", 0.3):
+            case["constraints"].append(gen_point_constraint(rng, case, opts))
+        else:
+            case["constraints"].append(gen_path_constraint(rng, case, opts))
+
+
+def add_objective(rng, case, opts):
+    n = rng.randint(opts.get("no_min", 1), opts.get("no_max", 3))
+    for _ in range(n):
+        case["objective"].append(pterm(rng, case, opts))
+
+
+def add_roots_constraint(rng, case):
+    """a path constraint on the integrator roots (placeable only under DirectCollocation)"""
+    kinds = ["x", "u", "p", "t"]
+    case["constraints"].append({"grid": "integrator_roots", "include_first": True, "include_last": True,
+                                "rels": [{"rel": "le", "lhs": signal_expr(rng, case, kinds, 2),
+                                          "rhs": C(dyadic(rng, -2, 2, 1))}]})
